@@ -21,7 +21,7 @@ COQ_IMPORTS = ('From Bac Require Import Base.\nFrom Bac Require Import Tag.\nFro
 TABLE_OBLIGATIONS = ['C03_all_wf', 'C03_supported_or_listed', 'C03_all_supported', 'C03_registries_shape']
 RULE = ('cases: for each of the 58 registered PDUs and every Sequence/Choice class of apdu.py/basetypes.py (all, every run): presence '
         'patterns of its optional elements (all if <= 8 (quick) / 64 (thorough), else all-absent, all-present, each single one, '
-        'random), every choice alternative, list lengths 0..3, nested values random to the depth of the type, leaves from boundary pools; '
+        'random), every choice alternative, list lengths 0..3, every list element also with repeated entries (adjacent, non-adjacent, all equal; 0.0/-0.0 and True/False mixes), lists of every primitive element kind x ListOf/SequenceOf/ArrayOf x repetition pattern carried in an Any (cast_in / cast_out) and through ReadRangeACK.itemData, ReadPropertyACK.propertyValue, ... , nested values random to the depth of the type, leaves from boundary pools; '
         'each value is encoded (tag list / PDU octets compared) and its encoding decoded (shape + remaining tags compared); malformed '
         'stream = one structural mutation (delete, duplicate, renumber, reclass, swap, truncate, append) of a valid encoding, compared '
         'on value shape or error class; typed Any contents (every constructed type with context-tagged primitive members, alone and in lists, plus the ones met inside generated PDUs) through Any.cast_out TWICE followed by a look at the tag list the Any holds (model: the unchanged input).  non-trivial = value with >= 1 optional present, >= 1 list element or a non-first alternative, '
@@ -221,10 +221,42 @@ def list_safe(name):
         and any(not e['opt'] for e in d['elements'])
 
 
+def atom_class(name):
+    """an atomic class by name: one of primitivedata's, else an Enumerated / BitString / Unsigned subclass the tables use"""
+    from bacpypes import primitivedata as pd
+    return getattr(pd, name, None) or S()['atoms'][name]
+
+
+def is_atom_list(c):
+    return c[0].endswith('-atom')
+
+
+def dup_pattern(items, rng, fresh):
+    """impose a repetition pattern on a list of generated entries (trees are immutable, sharing them is fine): a BACnet
+    SEQUENCE OF / list may hold equal entries any number of times, and the codec must keep every one of them.
+    fresh() makes one more distinct entry."""
+    if not items:
+        return items
+    how = rng.choice(['adjacent', 'nonadjacent', 'allequal', 'adjacent-then-other', 'asis'])
+    a = items[0]
+    if how == 'adjacent':
+        return [a, a] + items[1:]
+    if how == 'nonadjacent':
+        return [a] + (items[1:] or [fresh()]) + [a]
+    if how == 'allequal':
+        return [a] * rng.choice([2, 3, 4])
+    if how == 'adjacent-then-other':
+        return items[1:] + [a, a, a]
+    return items
+
+
 def carried_coq_type(c):
     form, name = c[0], c[1]
     if form == 'atom':
         return '(TAtom %d)' % prim(name)._app_tag
+    if is_atom_list(c):
+        inner = '(TAtom %d)' % atom_class(name)._app_tag
+        return {'seqof': '(TSeqOf %s)', 'listof': '(TSeqOf %s)', 'arrayof': '(TArrayOf %s None)'}[form.split('-')[0]] % inner
     return {'class': '%s', 'seqof': '(TSeqOf %s)', 'listof': '(TSeqOf %s)', 'arrayof': '(TArrayOf %s None)'}[form] % tname(name)
 
 
@@ -233,28 +265,78 @@ def carried_py_type(c):
     form, name = c[0], c[1]
     if form == 'atom':
         return prim(name)
+    if is_atom_list(c):
+        return {'seqof': cd.SequenceOf, 'listof': cd.ListOf, 'arrayof': cd.ArrayOf}[form.split('-')[0]](atom_class(name))
     cls = S()['classes'][name]
     return {'class': lambda k: k, 'seqof': cd.SequenceOf, 'listof': cd.ListOf, 'arrayof': cd.ArrayOf}[form](cls)
 
 
-def gen_carried(rng):
+LIST_ATOMS = ['Boolean', 'Unsigned', 'Integer', 'Real', 'Double', 'OctetString', 'CharacterString', 'BitString', 'Enumerated',
+              'Date', 'Time', 'ObjectIdentifier', 'Null', 'Unsigned8', 'Unsigned16', 'PropertyIdentifier', 'ObjectType',
+              'StatusFlags', 'EventState']
+# entries that Python's == merges although they are different values on the wire
+MIXES = {'Real': [0.0, -0.0, 0.0, -0.0], 'Double': [-0.0, 0.0, 0.0], 'Boolean': [True, True, False, True, False],
+         'Unsigned': [1, 0, 1, 0, 1], 'Integer': [0, -1, 0, -1], 'Enumerated': [1, 0, 1, 1]}
+
+
+def atom_tree(klass, name, v):
+    return ('atom', name, norm_leaf(klass(v).value if atom_base(klass) != 'Null' else ()), leaf_tag(klass, v), v)
+
+
+def atom_list_content(form, name, raws):
+    klass = atom_class(name)
+    trees = [atom_tree(klass, name, v) for v in raws]
+    return ('tags', [t[3] for t in trees], (form.split('-')[0] + '-atom', name, trees))
+
+
+def gen_atom_list(rng, form, name=None, pattern=None):
+    """an Any holding a SequenceOf / ListOf / ArrayOf of a PRIMITIVE type, with repeated entries more often than not"""
+    name = name or rng.choice(LIST_ATOMS)
+    klass = atom_class(name)
+    if pattern == 'mix' or (pattern is None and name in MIXES and rng.random() < 0.25):
+        raws = list(MIXES.get(name, [])) or [leaf_value(klass, rng)] * 2
+    else:
+        raws = [leaf_value(klass, rng) for _ in range(rng.choice([0, 1, 2, 3]) if pattern is None else 2)]
+        if pattern == 'adjacent':
+            raws = [raws[0], raws[0]] + raws[1:]
+        elif pattern == 'nonadjacent':
+            raws = [raws[0], raws[1], raws[0]]
+        elif pattern == 'allequal':
+            raws = [raws[0]] * 3
+        elif raws and rng.random() < 0.7:
+            raws = dup_pattern(raws, rng, lambda: leaf_value(klass, rng))
+    return atom_list_content(form, name, raws)
+
+
+def gen_carried(rng, only_lists=False):
     """an Any holding the encoding of a typed value: ('tags', tags, (form, type name, value tree(s)))"""
     pool = carry_pool()
     form = rng.choice(['class', 'class', 'class', 'seqof', 'listof', 'arrayof', 'atom'])
+    if only_lists:          # SequenceOfAny.cast_in / cast_out only take ListOf classes
+        form = 'listof'
     try:
         if form == 'atom':
             nm = rng.choice(ANY_ATOMS)
             klass = prim(nm)
             v = leaf_value(klass, rng)
             return ('tags', [leaf_tag(klass, v)], ('atom', nm, norm_leaf(klass(v).value if nm != 'Null' else ())))
+        if form != 'class' and rng.random() < 0.5:
+            return gen_atom_list(rng, form)
         name = rng.choice(pool['ctxprim'] if rng.random() < 0.7 else pool['all'])
         n = 1 if form == 'class' else rng.choice([0, 1, 2, 3] if list_safe(name) else [0])
-        trees, tags = [], []
-        for _ in range(n):
+        trees = []
+
+        def one():
             tr = gen_class(name, rng, 3)
             if tree_size(tr) > 30 or features(tr):
-                return None
-            trees.append(tr)
+                raise ValueError
+            return tr
+        for _ in range(n):
+            trees.append(one())
+        if form != 'class' and trees and rng.random() < 0.5:
+            trees = dup_pattern(trees, rng, one)
+        tags = []
+        for tr in trees:
             tags += impl_encode_tags(name, tr)
         return ('tags', tags, (form, name, trees))
     except Exception:
@@ -272,8 +354,15 @@ def gen_type(t, rng, depth, force=None):
         klass = prim(nm)
         v = leaf_value(klass, rng)
         return ('aatom', nm, norm_leaf(klass(v).value if nm != 'Null' else ()), leaf_tag(klass, v), v)
+    if k in ('any', 'seqofany') and force and 'carry' in force:
+        # deliberately: a ListOf of a primitive type with repeated entries carried by this Any / SequenceOfAny
+        return gen_atom_list(rng, 'listof' if k == 'seqofany' else rng.choice(['listof', 'seqof', 'arrayof']), None, force['carry'])
     if k == 'any' and rng.random() < 0.6:
         c = gen_carried(rng)
+        if c is not None:
+            return c
+    if k == 'seqofany' and rng.random() < 0.7:
+        c = gen_carried(rng, only_lists=True)
         if c is not None:
             return c
     if k in ('any', 'seqofany'):
@@ -287,7 +376,13 @@ def gen_type(t, rng, depth, force=None):
             n = rng.choice([0, 1, 1, 2])
         else:
             n = rng.choice([0, 1, 2, 3])
-        return ('list', [gen_type(t['of'], rng, depth + 1) for _ in range(n)])
+        if force and 'dup' in force:
+            a, b = gen_type(t['of'], rng, depth + 2), gen_type(t['of'], rng, depth + 2)
+            return ('list', {'adjacent': [a, a, b], 'nonadjacent': [a, b, a], 'allequal': [a, a, a]}[force['dup']])
+        items = [gen_type(t['of'], rng, depth + 1) for _ in range(n)]
+        if len(items) >= 1 and not (force and 'listlen' in force) and depth < 3 and rng.random() < 0.4:
+            items = dup_pattern(items, rng, lambda: gen_type(t['of'], rng, depth + 1))
+        return ('list', items)
     if k == 'ref':
         return gen_class(t['name'], rng, depth, force)
     raise ValueError(k)
@@ -314,12 +409,12 @@ def gen_class(name, rng, depth=0, force=None):
                 pres = force['presence'][i] if force and 'presence' in force and i in force['presence'] else (rng.random() < p)
             else:
                 pres = True
-            sub = {'listlen': force['listlen']} if force and 'listlen' in force else None
+            sub = {k: force[k] for k in ('listlen', 'carry', 'dup') if k in force} if force else None
             fs.append(gen_type(e['type'], rng, depth + 1, sub) if pres else None)
         return ('seq', name, fs)
     if d['kind'] == 'choice':
         i = force['alt'] if force and 'alt' in force else rng.randrange(len(els))
-        sub = {'listlen': force['listlen']} if force and 'listlen' in force else None
+        sub = {k: force[k] for k in ('listlen', 'carry', 'dup') if k in force} if force else None
         return ('choice', name, i, gen_type(els[i]['type'], rng, depth + 1, sub))
     raise ValueError(d['kind'])
 
@@ -628,6 +723,8 @@ def shape_cast(c, r):
         return [1, prim(name)._app_tag]
     if form == 'class':
         return shape_class(name, r)
+    if is_atom_list(c):
+        return [5, len(r)] + [1, atom_class(name)._app_tag] * len(r)
     out = [5, len(r)]
     for x in r:
         out += shape_class(name, x)
@@ -686,7 +783,7 @@ def iter_anys(tr):
 def find_anys_type(t, tr, v):
     """(Any object, carried descriptor) pairs of a decoded value, walking tree and object together"""
     k = t['k']
-    if k == 'any':
+    if k in ('any', 'seqofany'):
         if tr is not None and len(tr) > 2:
             yield v, tr[2]
     elif k == 'seqof':
@@ -724,6 +821,8 @@ def carried_extract(c, r):
         return ('leaf', norm_leaf(r))
     if form == 'class':
         return extract_class(name, r)
+    if is_atom_list(c):
+        return ('list', tuple(('atom', None, norm_leaf(x)) for x in r))
     return ('list', tuple(extract_class(name, x) for x in r))
 
 
@@ -907,12 +1006,21 @@ def values_for(name, rng, tier):
         if has_list(name):
             for n in (0, 1, 2, 3):
                 out.append(gen_bounded(name, rng, {'listlen': n}))
+            for pat in ('adjacent', 'nonadjacent', 'allequal'):       # equal entries in every list element
+                out.append(gen_bounded(name, rng, {'dup': pat}))
+        if any(e['type']['k'] in ('any', 'seqofany') for e in d['elements']):
+            allp = dict.fromkeys([i for i, e in enumerate(d['elements']) if e['opt']], True)
+            for pat in ('adjacent', 'nonadjacent', 'allequal', 'mix'):  # ... and in lists carried by an Any
+                out.append(gen_bounded(name, rng, {'carry': pat, 'presence': allp}))
     elif d['kind'] == 'choice':
         for i in range(len(d['elements'])):
             out.append(gen_bounded(name, rng, {'alt': i}))
             if d['elements'][i]['type']['k'] == 'seqof':
                 for n in (0, 1, 3):
                     out.append(gen_bounded(name, rng, {'alt': i, 'listlen': n}))
+                out.append(gen_bounded(name, rng, {'alt': i, 'dup': rng.choice(['adjacent', 'nonadjacent', 'allequal'])}))
+            if d['elements'][i]['type']['k'] in ('any', 'seqofany'):
+                out.append(gen_bounded(name, rng, {'alt': i, 'carry': rng.choice(['adjacent', 'nonadjacent', 'allequal', 'mix'])}))
     else:
         for r in (0.1, 0.5, 0.9):
             out.append(gen_bounded(name, rng, {'nv': r}))
@@ -1035,6 +1143,31 @@ def systematic_carried(rng):
             except Exception:
                 continue
             out.append(('tags', tags, (form, name, trees)))
+    # lists of every primitive element kind, each list kind, each repetition pattern (every run)
+    for name in LIST_ATOMS:
+        for form in ('listof', 'seqof', 'arrayof'):
+            for pattern in (['adjacent', 'nonadjacent', 'allequal'] + (['mix'] if name in MIXES else [])):
+                if name == 'Null' and pattern == 'mix':
+                    continue
+                try:
+                    out.append(gen_atom_list(rng, form, name, pattern))
+                except Exception:
+                    continue
+    # lists of constructed entries with repetitions
+    for name in rng.sample(carry_pool()['ctxprim'], 25):
+        if not list_safe(name):
+            continue
+        try:
+            a, b = gen_bounded(name, rng, limit=30), gen_bounded(name, rng, limit=30)
+            if features(a) or features(b):
+                continue
+            for form, trees in (('listof', [a, a, b]), ('seqof', [a, b, a]), ('arrayof', [a, a, a])):
+                tags = []
+                for tr in trees:
+                    tags += impl_encode_tags(name, tr)
+                out.append(('tags', tags, (form, name, trees)))
+        except Exception:
+            continue
     return out
 
 
@@ -1067,6 +1200,8 @@ def carried_py_value(c):
     form, name = c[0], c[1]
     if form == 'class':
         return build_class(name, c[2][0])
+    if is_atom_list(c):
+        return carried_py_type(c)([x[4] for x in c[2]])
     return carried_py_type(c)([build_class(name, x) for x in c[2]])
 
 
@@ -1092,6 +1227,13 @@ def carried_bad_value(c, rng):
         obj = build_class(name, c[2][0])
         what = spoil(name, obj, rng)
         return (obj, what) if what else (None, None)
+    if is_atom_list(c):            # one entry the primitive class refuses, after j good ones
+        raws = [x[4] for x in c[2]]
+        if not raws:
+            return None, None
+        j = rng.randrange(len(raws))
+        raws[j] = object()
+        return carried_py_type(c)(raws), 'entry %d := object()' % j
     items = [build_class(name, x) for x in c[2]]
     if not items:
         return None, None
